@@ -83,8 +83,9 @@ Definition const_ok (k: kind) (v ty: str) : bool :=
   else if kind_in k tbl_FLOAT_CONST then match float_const_type v with Some t => str_eqb t ty | None => false end
   else kind_in k tbl_CHAR_CONST && str_eqb ty (s2l "char").
 
-(* a type name of the language: a non-empty run of simple type-specifier keywords *)
-Definition tyok (ty: list (kind * str)) : Prop := ty <> [] /\ Forall (fun kv => kind_in (fst kv) tbl_TYPE_SPEC_SIMPLE = true) ty.
+(* a type name of the language: a non-empty run of simple type-specifier keywords, or one typedef name *)
+Definition tyok (ty: list (kind * str)) : Prop :=
+  (ty <> [] /\ Forall (fun kv => kind_in (fst kv) tbl_TYPE_SPEC_SIMPLE = true) ty) \/ (exists v, ty = [(K_TYPEID, v)]).
 
 Fixpoint wf (e: ex) : Prop :=
   match e with
@@ -768,6 +769,9 @@ Qed.
 Lemma list_asg : forall l, Forall T l -> Forall (fun kx => AsgS (fst kx) (snd kx)) (map (fun a => (argt a, embx a)) l).
 Proof. induction l as [|x r IH]; intros H; [constructor|]. inversion H; subst. constructor; [apply T_asg_argt; assumption|apply IH; assumption]. Qed.
 
+Lemma tyok_TyOK : forall ty, tyok ty -> TyOK P ty.
+Proof. intros ty [[Hne HF]|[v ->]]; [apply simple_tyok; assumption|apply typeid_tyok]. Qed.
+
 Theorem T_all : forall n e, size e <= n -> wf e -> T e.
 Proof.
   induction n as [|n IH]; intros e Hn Hw; [destruct e; cbn in Hn; lia|].
@@ -896,17 +900,16 @@ Proof.
     apply paren_to_cast; [apply first_ok_parkv; exact Hf|].
     apply cond_to_expr; [apply first_ok_parkv; exact Hf|apply cast_to_cond; apply paren_to_cast; assumption].
   - (* cast *)
-    destruct Hw as ((Hne & HF) & Hx). assert (HT: T x) by (apply IH; [lia|exact Hx]).
+    destruct Hw as (Hty & Hx). assert (HT: T x) by (apply IH; [lia|exact Hx]). pose proof (tyok_TyOK ty Hty) as HTy.
     assert (HCa: CastS (xt (XCast ty x)) (embx (XCast ty x))).
-    { cbn [RoundTripX.xt embx]. apply (cast_type P ty (opnd x) (embx x) Hne HF (T_first_opnd x HT)). exact (proj1 (proj2 (proj2 HT))). }
+    { cbn [RoundTripX.xt embx]. apply (cast_type P ty (opnd x) (embx x) HTy (T_first_opnd x HT)). exact (proj1 (proj2 (proj2 HT))). }
     apply T_of_cond; try reflexivity; [|apply cast_to_cond; exact HCa].
-    cbn [RoundTripX.xt]. destruct ty as [|[k0 v0] ty']; [congruence|]. cbn [app].
+    cbn [RoundTripX.xt]. destruct HTy as (_ & [k0 [v0 [ty' [-> Hk0]]]] & _). cbn [app].
     exists K_LPAREN, (s2l "("), ((k0, v0) :: ty' ++ (K_RPAREN, s2l ")") :: opnd x). split; [reflexivity|]. split; [reflexivity|]. split; [reflexivity|].
-    intros _. exists k0, v0, (ty' ++ (K_RPAREN, s2l ")") :: opnd x). split; [reflexivity|].
-    pose proof (Forall_inv HF) as Hk0. cbn [fst] in Hk0. clear -Hk0. destruct k0; vm_compute in Hk0; try discriminate Hk0; reflexivity.
+    intros _. exists k0, v0, (ty' ++ (K_RPAREN, s2l ")") :: opnd x). split; [reflexivity|exact (decl_start_not_lbrace k0 Hk0)].
   - (* sizeof(type-name) *)
-    destruct Hw as (Hne & HF).
-    assert (HCa: CastS (xt (XSizeofT ty)) (embx (XSizeofT ty))) by (cbn [RoundTripX.xt embx]; apply (sizeof_type P ty Hne HF)).
+    pose proof (tyok_TyOK ty Hw) as HTy.
+    assert (HCa: CastS (xt (XSizeofT ty)) (embx (XSizeofT ty))) by (cbn [RoundTripX.xt embx]; apply (sizeof_type P ty HTy)).
     apply T_of_cond; try reflexivity; [|apply cast_to_cond; exact HCa].
     cbn [RoundTripX.xt]. eexists; eexists; eexists. split; [reflexivity|]. split; [reflexivity|split; [reflexivity|intros E; discriminate E]].
 Qed.
